@@ -212,7 +212,8 @@ theorem aux_appResp_same {val : Val} {voters : List Id} {n : Nat} {s : Spec.Stat
       have sf := hs.sf
       have hframe : AuxFrame r r' :=
         ⟨by rw [sf.term, a1]; exact Nat.le_refl _,
-         fun _ _ => ⟨by rw [sf.state, a2]; exact hl, by rw [sf.log, a3]; exact Nat.le_refl _⟩⟩
+         fun _ _ => ⟨by rw [sf.state, a2]; exact hl, by rw [sf.log, a3]; exact Nat.le_refl _⟩,
+         fun _ hf => by rw [hl] at hf; cases hf⟩
       refine ⟨⟨?_, ?_, ?_⟩, hframe⟩
       · intro _ pr' hp
         obtain ⟨p, hga, e1, _⟩ := prKeep_back hs.pk hp
@@ -226,7 +227,9 @@ theorem aux_appResp_same {val : Val} {voters : List Id} {n : Nat} {s : Spec.Stat
           · rw [hX]; exact haux.matchLe hl pr (hf ▸ hg)
           · rw [hX]
             obtain ⟨hto', hso⟩ := hself hf
-            exact ((hso hto').2.2.2.2 ht hterm).2
+            rcases (hso hto').2.2.2.2 ht hterm with hfo | hle
+            · rw [hl] at hfo; cases hfo
+            · exact hle.2
         · rw [if_neg hf] at hga
           exact haux.matchLe hl p hga
       · intro x hx
